@@ -634,7 +634,7 @@ theorem reverse_coherent' [Geo V N] {dim3 : Bool} (hl : dim3 = true → LawfulGe
   unfold Coherent at hc ⊢
   simp only [Mesh.derived, derive, Derived.mk.injEq] at hc ⊢
   obtain ⟨hp, ht, hcc⟩ := hc
-  unfold reverse at h
+  unfold reverse retopo at h
   cases dim3 with
   | false =>
     simp only [Bool.false_eq_true, if_false, Bool.false_and] at h hp ⊢
@@ -1325,5 +1325,354 @@ theorem reverseW_coherent_partial' [Geo V N] {dim3 : Bool} {s s' : Mesh V N}
     · rw [hpn0, hpn1]
     · rw [ht]; simp [htf]
     · rw [hcc, computeCC_rev]
+
+/-! ## `merge_duplicate_vertices`: what the loop guarantees -/
+
+/-- what the QBVH needs from the geometry: `box` (the triangle's `local_aabb`) only depends on the coordinates up to
+the equality used for merging, and not on the order of the first two vertices -/
+structure BoxLaws [Geo V N] {B : Type} (box : V × V × V → B) : Prop where
+  congr_a : ∀ p q b c, Geo.veq N p q = true → box (p, b, c) = box (q, b, c)
+  congr_b : ∀ p q a c, Geo.veq N p q = true → box (a, p, c) = box (a, q, c)
+  congr_c : ∀ p q a b, Geo.veq N p q = true → box (a, b, p) = box (a, b, q)
+  swap : ∀ a b c, box (b, a, c) = box (a, b, c)
+
+/-- `resolve_coord_id` returns a valid id whose vertex is the point itself or equal to it, and only appends -/
+theorem resolve_spec [Geo V N] (nv : List V) (p : V) :
+    nv <+: (resolve (N := N) nv p).2 ∧
+    ∃ q, (resolve (N := N) nv p).2[(resolve (N := N) nv p).1]? = some q ∧ (q = p ∨ Geo.veq N p q = true) := by
+  unfold resolve
+  cases h : nv.findIdx? (fun q => Geo.veq N p q) with
+  | none =>
+    simp only
+    refine ⟨List.prefix_append _ _, p, ?_, Or.inl rfl⟩
+    simp
+  | some i =>
+    simp only
+    obtain ⟨hi, hp, _⟩ := List.findIdx?_eq_some_iff_getElem.mp h
+    exact ⟨List.prefix_refl _, nv[i], by simp [hi], Or.inr hp⟩
+
+theorem prefix_getElem? {α} {l1 l2 : List α} (h : l1 <+: l2) {i : Nat} {x : α} (hx : l1[i]? = some x) : l2[i]? = some x := by
+  obtain ⟨t, rfl⟩ := h
+  have hi : i < l1.length := by
+    cases hlt : decide (i < l1.length)
+    · simp only [decide_eq_false_iff_not, Nat.not_lt] at hlt
+      rw [List.getElem?_eq_none hlt] at hx; cases hx
+    · simpa using hlt
+  rw [List.getElem?_append_left hi]; exact hx
+
+theorem allCoords_cons (vs : List V) (t : Tri) (ts : List Tri) :
+    allCoords vs (t :: ts) = match triCoords vs t, allCoords vs ts with
+      | some c, some cs => some (c :: cs)
+      | _, _ => none := by
+  rw [allCoords]
+  rfl
+
+theorem mergeLoop_cons [Geo V N] (dd ddup : Bool) (c : V × V × V) (cs : List (V × V × V)) (nv : List V) (ni : List Tri)
+    (set : List (Nat × Nat × Nat)) :
+    mergeLoop (N := N) dd ddup (c :: cs) nv ni set =
+      (let r1 := resolve (N := N) nv c.1
+       let r2 := resolve (N := N) r1.2 c.2.1
+       let r3 := resolve (N := N) r2.2 c.2.2
+       let va := r1.1; let vb := r2.1; let vc := r3.1
+       let isDeg := va == vb || va == vc || vb == vc
+       if !isDeg || !dd then
+         if ddup then
+           let s := sort3 va vb vc
+           let key := (s.2.2, s.2.1, s.1)
+           if set.contains key then mergeLoop (N := N) dd ddup cs r3.2 ni set
+           else mergeLoop (N := N) dd ddup cs r3.2 (ni ++ [⟨va, vb, vc⟩]) (key :: set)
+         else mergeLoop (N := N) dd ddup cs r3.2 (ni ++ [⟨va, vb, vc⟩]) set
+       else mergeLoop (N := N) dd ddup cs r3.2 ni set) := by
+  obtain ⟨pa, pb, pc⟩ := c
+  rw [mergeLoop]
+
+/-- the loop of `merge_duplicate_vertices`: the index buffer only grows by valid triangles, the vertex buffer only
+grows, at most one triangle is emitted per input triangle, and when none is dropped the emitted triangles have the
+same boxes as the input triangles -/
+theorem mergeLoop_spec [Geo V N] {B : Type} (box : V × V × V → B) (hbox : BoxLaws (N := N) box) (dd ddup : Bool)
+    (cs : List (V × V × V)) (nv : List V) (ni : List Tri) (set : List (Nat × Nat × Nat)) :
+    ∃ added, (mergeLoop (N := N) dd ddup cs nv ni set).2 = ni ++ added ∧
+      nv <+: (mergeLoop (N := N) dd ddup cs nv ni set).1 ∧
+      added.length ≤ cs.length ∧
+      (∀ t ∈ added, (triCoords (mergeLoop (N := N) dd ddup cs nv ni set).1 t).isSome = true) ∧
+      (added.length = cs.length →
+        ∃ cur, allCoords (mergeLoop (N := N) dd ddup cs nv ni set).1 added = some cur ∧ cur.map box = cs.map box) := by
+  induction cs generalizing nv ni set with
+  | nil =>
+    refine ⟨[], by simp [mergeLoop], by simp [mergeLoop, List.prefix_refl], Nat.le_refl _, by simp, ?_⟩
+    intro _; exact ⟨[], rfl, rfl⟩
+  | cons c cs ih =>
+    obtain ⟨pa, pb, pc⟩ := c
+    rw [mergeLoop_cons]
+    simp only
+    -- the three resolutions
+    obtain ⟨p1, qa, ha, ra⟩ := resolve_spec (N := N) nv pa
+    obtain ⟨p2, qb, hb, rb⟩ := resolve_spec (N := N) (resolve (N := N) nv pa).2 pb
+    obtain ⟨p3, qc, hc, rc⟩ := resolve_spec (N := N) (resolve (N := N) (resolve (N := N) nv pa).2 pb).2 pc
+    generalize hr1 : resolve (N := N) nv pa = r1 at *
+    generalize hr2 : resolve (N := N) r1.2 pb = r2 at *
+    generalize hr3 : resolve (N := N) r2.2 pc = r3 at *
+    have p13 : nv <+: r3.2 := p1.trans (p2.trans p3)
+    -- the triangle that may be emitted has its three corners in `r3.2`
+    have ha3 : r3.2[r1.1]? = some qa := prefix_getElem? (p2.trans p3) ha
+    have hb3 : r3.2[r2.1]? = some qb := prefix_getElem? p3 hb
+    have hboxt : box (qa, qb, qc) = box (pa, pb, pc) := by
+      have e1 : box (qa, qb, qc) = box (pa, qb, qc) := by
+        rcases ra with h | h
+        · rw [h]
+        · exact (hbox.congr_a _ _ _ _ h).symm
+      have e2 : box (pa, qb, qc) = box (pa, pb, qc) := by
+        rcases rb with h | h
+        · rw [h]
+        · exact (hbox.congr_b _ _ _ _ h).symm
+      have e3 : box (pa, pb, qc) = box (pa, pb, pc) := by
+        rcases rc with h | h
+        · rw [h]
+        · exact (hbox.congr_c _ _ _ _ h).symm
+      rw [e1, e2, e3]
+    -- the two possible continuations
+    have keep : ∀ set', ∃ added, (mergeLoop (N := N) dd ddup cs r3.2 (ni ++ [⟨r1.1, r2.1, r3.1⟩]) set').2 = ni ++ added ∧
+        nv <+: (mergeLoop (N := N) dd ddup cs r3.2 (ni ++ [⟨r1.1, r2.1, r3.1⟩]) set').1 ∧
+        added.length ≤ (cs.length + 1) ∧
+        (∀ t ∈ added, (triCoords (mergeLoop (N := N) dd ddup cs r3.2 (ni ++ [⟨r1.1, r2.1, r3.1⟩]) set').1 t).isSome = true) ∧
+        (added.length = cs.length + 1 →
+          ∃ cur, allCoords (mergeLoop (N := N) dd ddup cs r3.2 (ni ++ [⟨r1.1, r2.1, r3.1⟩]) set').1 added = some cur ∧
+            cur.map box = box (pa, pb, pc) :: cs.map box) := by
+      intro set'
+      obtain ⟨added', e1, e2, e3, e4, e5⟩ := ih r3.2 (ni ++ [⟨r1.1, r2.1, r3.1⟩]) set'
+      have htc : triCoords (mergeLoop (N := N) dd ddup cs r3.2 (ni ++ [⟨r1.1, r2.1, r3.1⟩]) set').1 ⟨r1.1, r2.1, r3.1⟩ = some (qa, qb, qc) := by
+        unfold triCoords
+        simp only [prefix_getElem? e2 ha3, prefix_getElem? e2 hb3, prefix_getElem? e2 hc]
+      refine ⟨⟨r1.1, r2.1, r3.1⟩ :: added', ?_, p13.trans e2, ?_, ?_, ?_⟩
+      · rw [e1]; simp
+      · simp only [List.length_cons]; omega
+      · intro t ht
+        rcases List.mem_cons.mp ht with rfl | ht'
+        · rw [htc]; rfl
+        · exact e4 t ht'
+      · intro hl
+        simp only [List.length_cons, Nat.add_right_cancel_iff] at hl
+        obtain ⟨cur, hcur, hmap⟩ := e5 hl
+        refine ⟨(qa, qb, qc) :: cur, ?_, ?_⟩
+        · rw [allCoords_cons, htc, hcur]
+        · simp only [List.map_cons, hmap, hboxt]
+    have drop : ∃ added, (mergeLoop (N := N) dd ddup cs r3.2 ni set).2 = ni ++ added ∧
+        nv <+: (mergeLoop (N := N) dd ddup cs r3.2 ni set).1 ∧
+        added.length ≤ (cs.length + 1) ∧
+        (∀ t ∈ added, (triCoords (mergeLoop (N := N) dd ddup cs r3.2 ni set).1 t).isSome = true) ∧
+        (added.length = cs.length + 1 →
+          ∃ cur, allCoords (mergeLoop (N := N) dd ddup cs r3.2 ni set).1 added = some cur ∧
+            cur.map box = box (pa, pb, pc) :: cs.map box) := by
+      obtain ⟨added', e1, e2, e3, e4, _⟩ := ih r3.2 ni set
+      refine ⟨added', e1, p13.trans e2, by omega, e4, ?_⟩
+      intro hl; omega
+    simp only [List.length_cons, List.map_cons]
+    split
+    · split
+      · split
+        · exact drop
+        · exact keep _
+      · exact keep _
+    · exact drop
+
+theorem allCoords_of_all {vs : List V} {idx : List Tri} (h : ∀ t ∈ idx, (triCoords vs t).isSome = true) :
+    (allCoords vs idx).isSome = true := by
+  induction idx with
+  | nil => rfl
+  | cons t ts ih =>
+    rw [allCoords_cons]
+    have h1 := h t List.mem_cons_self
+    have h2 := ih (fun t' ht' => h t' (List.mem_cons_of_mem _ ht'))
+    cases hc : triCoords vs t with
+    | none => rw [hc] at h1; cases h1
+    | some c =>
+      cases ha : allCoords vs ts with
+      | none => rw [ha] at h2; cases h2
+      | some cs => rfl
+
+theorem allCoords_length {vs : List V} {idx : List Tri} {cs : List (V × V × V)} (h : allCoords vs idx = some cs) :
+    cs.length = idx.length := by
+  induction idx generalizing cs with
+  | nil => simp [allCoords] at h; subst h; rfl
+  | cons t ts ih =>
+    rw [allCoords_cons] at h
+    cases hc : triCoords vs t with
+    | none => rw [hc] at h; cases h
+    | some c =>
+      cases ha : allCoords vs ts with
+      | none => rw [hc, ha] at h; cases h
+      | some cs' =>
+        rw [hc, ha] at h; cases h
+        simp [ih ha]
+
+/-- `merge_duplicate_vertices` on the buffers: never more triangles, a well-formed result, and the same boxes
+triangle by triangle when no triangle is deleted -/
+theorem mergeBuffers_spec [Geo V N] {B : Type} (box : V × V × V → B) (hbox : BoxLaws (N := N) box) {dd ddup : Bool}
+    {vs nv : List V} {idx ni : List Tri} (h : mergeBuffers (N := N) dd ddup vs idx = some (nv, ni)) :
+    ni.length ≤ idx.length ∧ (allCoords nv ni).isSome = true ∧
+    (ni.length = idx.length → ∃ cs cur, allCoords vs idx = some cs ∧ allCoords nv ni = some cur ∧ cur.map box = cs.map box) := by
+  unfold mergeBuffers at h
+  cases hc : allCoords vs idx with
+  | none => rw [hc] at h; cases h
+  | some cs =>
+    rw [hc] at h
+    simp only [Option.some.injEq] at h
+    obtain ⟨added, e1, _, e3, e4, e5⟩ := mergeLoop_spec (N := N) box hbox dd ddup cs [] [] []
+    rw [h] at e1 e4 e5
+    simp only [List.nil_append] at e1
+    subst e1
+    have hl := allCoords_length hc
+    refine ⟨by omega, allCoords_of_all e4, ?_⟩
+    intro hlen
+    obtain ⟨cur, h1, h2⟩ := e5 (by omega)
+    exact ⟨cs, cur, rfl, h1, h2⟩
+
+/-! ## the QBVH stays coherent -/
+
+/-- **QBVH coherence**: the tree was built from triangles having exactly the boxes of the current triangles
+(`box` = `Triangle::local_aabb`), so it is the tree a fresh build would construct -/
+def QCoherent {B : Type} (box : V × V × V → B) (s : Mesh V N) : Prop :=
+  ∃ cs cur, s.qbvh = some cs ∧ allCoords s.vertices s.indices = some cur ∧ cs.map box = cur.map box
+
+/-- the buffers after `set_flags`: possibly merged, then possibly filtered by `delete_bad_topology_triangles` -/
+theorem setFlags_buffers [Geo V N] {dim3 : Bool} {s s' : Mesh V N} {f : Flags} {r : Option TopoErr}
+    (h : setFlags dim3 s f = some (s', r)) :
+    ∃ V1 I1, ((V1 = s.vertices ∧ I1 = s.indices) ∨ ∃ dd ddup, mergeBuffers (N := N) dd ddup s.vertices s.indices = some (V1, I1)) ∧
+      s'.vertices = V1 ∧ (s'.indices = I1 ∨ s'.indices = deleteBad I1) := by
+  unfold setFlags at h
+  simp only [Option.bind_eq_some_iff] at h
+  obtain ⟨⟨t1, d1⟩, h1, ⟨t2, r2, d2⟩, h2, t3, h3, t4, h4, t5, h5, h6⟩ := h
+  simp only [Option.some.injEq, Prod.mk.injEq] at h6
+  obtain ⟨rfl, _⟩ := h6
+  refine ⟨t1.vertices, t1.indices, ?_, ?_, ?_⟩
+  · unfold mergeStage at h1
+    split at h1
+    · simp only [Option.map_eq_some_iff, Prod.mk.injEq] at h1
+      obtain ⟨s', hm, rfl, _⟩ := h1
+      right
+      unfold mergeStep at hm
+      simp only [dropStage_vertices, dropStage_indices] at hm
+      split at hm
+      · cases hm
+      · rename_i nv ni hmb
+        cases hm
+        exact ⟨_, _, hmb⟩
+    · cases h1; left; simp
+  all_goals
+    have b2 : t2.vertices = t1.vertices ∧ (t2.indices = t1.indices ∨ t2.indices = deleteBad t1.indices) := by
+      unfold topoStage at h2
+      split at h2
+      · simp only [Option.map_eq_some_iff, Prod.mk.injEq] at h2
+        obtain ⟨⟨s', r'⟩, hm, rfl, _, _⟩ := h2
+        obtain ⟨a, b, _⟩ := topoStep_spec hm
+        refine ⟨a, ?_⟩
+        rw [b]; split
+        · exact Or.inr rfl
+        · exact Or.inl rfl
+      · cases h2; exact ⟨rfl, Or.inl rfl⟩
+    have b3 : t3.vertices = t2.vertices ∧ t3.indices = t2.indices := by
+      unfold ccStage at h3
+      split at h3
+      · obtain ⟨a, b, _⟩ := ccStep_spec h3; exact ⟨a, b⟩
+      · cases h3; exact ⟨rfl, rfl⟩
+    have b4 : t4.vertices = t3.vertices ∧ t4.indices = t3.indices := by
+      unfold pnStage at h4
+      split at h4
+      · obtain ⟨a, b, _⟩ := pnStep_spec h4; exact ⟨a, b⟩
+      · cases h4; exact ⟨rfl, rfl⟩
+    obtain ⟨⟨v5, i5, _⟩, _⟩ := qbvhStage_spec h5
+    simp only
+  · rw [v5, b4.1, b3.1, b2.1]
+  · rw [i5, b4.2, b3.2]; exact b2.2
+
+theorem setFlags_qbvh_some [Geo V N] {dim3 : Bool} {s s' : Mesh V N} {f : Flags} {r : Option TopoErr}
+    (h : setFlags dim3 s f = some (s', r)) (hl : s.indices.length ≠ s'.indices.length) : s'.qbvh.isSome = true := by
+  unfold setFlags at h
+  simp only [Option.bind_eq_some_iff] at h
+  obtain ⟨⟨t1, d1⟩, h1, ⟨t2, r2, d2⟩, h2, t3, h3, t4, h4, t5, h5, h6⟩ := h
+  simp only [Option.some.injEq, Prod.mk.injEq] at h6
+  obtain ⟨rfl, _⟩ := h6
+  simp only at hl ⊢
+  unfold qbvhStage at h5
+  split at h5
+  · exact (rebuildQbvh_spec h5).2.2.2
+  · rename_i hn
+    cases h5
+    exfalso; apply hn; simp [hl]
+
+theorem setFlags_qcoherent' [Geo V N] {B : Type} (box : V × V × V → B) (hbox : BoxLaws (N := N) box)
+    {dim3 : Bool} {s s' : Mesh V N} {f : Flags} {r : Option TopoErr}
+    (hq : QCoherent box s) (h : setFlags dim3 s f = some (s', r)) : QCoherent box s' := by
+  have hqb := setFlags_qbvh h
+  by_cases hl : s.indices.length = s'.indices.length
+  · -- same number of triangles: the tree is kept; nothing was deleted, so the boxes are the same
+    simp only [hl, bne_self_eq_false, Bool.false_eq_true, if_false] at hqb
+    obtain ⟨cs, cur, hcs, hcur, hmap⟩ := hq
+    obtain ⟨V1, I1, hm, hv, hi⟩ := setFlags_buffers h
+    -- the merge (if any) kept every triangle
+    have hI1 : I1.length ≤ s.indices.length ∧ (I1.length = s.indices.length →
+        ∃ cur1, allCoords V1 I1 = some cur1 ∧ cur1.map box = cur.map box) := by
+      rcases hm with ⟨rfl, rfl⟩ | ⟨dd, ddup, hmb⟩
+      · exact ⟨Nat.le_refl _, fun _ => ⟨cur, hcur, rfl⟩⟩
+      · obtain ⟨a, _, c⟩ := mergeBuffers_spec (N := N) box hbox hmb
+        refine ⟨a, fun hlen => ?_⟩
+        obtain ⟨cs0, cur1, h0, h1, h2⟩ := c hlen
+        rw [hcur] at h0; cases h0
+        exact ⟨cur1, h1, h2⟩
+    have hsub : (deleteBad I1).length ≤ I1.length := (deleteBadLoop_sublist I1 []).length_le
+    have hidx : s'.indices = I1 ∧ I1.length = s.indices.length := by
+      rcases hi with hi | hi
+      · exact ⟨hi, by rw [← hi]; exact hl.symm⟩
+      · have : I1.length = s.indices.length := by rw [hi] at hl; omega
+        refine ⟨?_, this⟩
+        rw [hi]; exact deleteBad_eq_of_length (by rw [hi] at hl; omega)
+    obtain ⟨cur1, hc1, hm1⟩ := hI1.2 hidx.2
+    exact ⟨cs, cur1, by rw [hqb, hcs], by rw [hv, hidx.1]; exact hc1, by rw [hmap, hm1]⟩
+  · -- the tree was rebuilt from the final buffers
+    have hne : (s.indices.length != s'.indices.length) = true := by simp [hl]
+    simp only [hne, if_true] at hqb
+    have hsome := setFlags_qbvh_some h hl
+    cases hq' : s'.qbvh with
+    | none => rw [hq'] at hsome; cases hsome
+    | some cs' => exact ⟨cs', cs', hq', by rw [← hqb, hq'], rfl⟩
+
+theorem retopo_spec {s2 s' : Mesh V N} (h : retopo s2 = some s') :
+    s'.vertices = s2.vertices ∧ s'.indices = s2.indices ∧ s'.qbvh = s2.qbvh := by
+  unfold retopo at h
+  split at h
+  · split at h
+    · cases h
+    · rename_i s3 r hts
+      cases h
+      obtain ⟨ev, ei, _, _, _, _, eq⟩ := topoStep_spec hts
+      simp only [Bool.false_eq_true, if_false] at ei
+      exact ⟨ev, ei, eq⟩
+  · cases h; exact ⟨rfl, rfl, rfl⟩
+
+theorem reverse_spec_buffers [Geo V N] {dim3 : Bool} {s s' : Mesh V N} (h : reverse dim3 s = some s') :
+    s'.vertices = s.vertices ∧ s'.indices = revIdx s.indices ∧ s'.qbvh = s.qbvh := by
+  unfold reverse at h
+  obtain ⟨a, b, c⟩ := retopo_spec h
+  cases dim3 <;> exact ⟨a, b, c⟩
+
+theorem reverse_qcoherent' [Geo V N] {B : Type} (box : V × V × V → B) (hbox : BoxLaws (N := N) box)
+    {dim3 : Bool} {s s' : Mesh V N} (hq : QCoherent box s) (h : reverse dim3 s = some s') : QCoherent box s' := by
+  obtain ⟨cs, cur, hcs, hcur, hmap⟩ := hq
+  obtain ⟨hv, hi, hqq⟩ := reverse_spec_buffers h
+  refine ⟨cs, cur.map swapC, by rw [hqq, hcs], by rw [hv, hi, allCoords_rev, hcur]; rfl, ?_⟩
+  rw [hmap, List.map_map]
+  apply List.map_congr_left
+  intro c _
+  obtain ⟨a, b, c⟩ := c
+  simp only [Function.comp, swapC]
+  exact (hbox.swap a b c).symm
+
+theorem withFlags_qcoherent' [Geo V N] {B : Type} (box : V × V × V → B)
+    {dim3 : Bool} {vs : List V} {idx : List Tri} {f : Flags} {s : Mesh V N}
+    (h : withFlags dim3 vs idx f = .ok s) : QCoherent box s := by
+  obtain ⟨h1, h2⟩ := withFlags_qbvh h
+  cases hq : s.qbvh with
+  | none => rw [hq] at h2; cases h2
+  | some cs => exact ⟨cs, cs, hq, by rw [← h1, hq], rfl⟩
 
 end C11
